@@ -55,6 +55,8 @@ func TestMsg(t *testing.T) {
 		k++
 		out.Add(fmt.Sprintf("msg-%s-%d", label, k), rec.Ev{"src": label}, label, ledgerOnly(res))
 	}
+	// failing Sends of a shared message on every pattern
+	msgFailScenarios(t, add)
 	// fan-out and retained-message patterns first
 	for _, p := range rawProtos {
 		switch p.eng {
